@@ -96,7 +96,7 @@ var properties = map[string]*propSpec{
 	"C03": {
 		Title: "Evaluation is total: results are non-empty or a documented runtime error",
 		Checks: []checkSpec{
-			{Test: "TestC03_Total", Quick: 50000, Thorough: 800000, Rapid: true},
+			{Test: "TestC03_Total", Quick: 50000, Thorough: 500000, Rapid: true},
 			{Test: "TestC03_Reduced", Quick: 1, Thorough: 1},
 			{Test: "FuzzRetrieve", Fuzz: "FuzzRetrieve", FuzzSeconds: 150, ThoroughOnly: true},
 		},
@@ -111,7 +111,7 @@ var properties = map[string]*propSpec{
 	"C04": {
 		Title: "Retrieval never modifies the source document",
 		Checks: []checkSpec{
-			{Test: "TestC04_Snapshot", Quick: 24000, Thorough: 400000, Rapid: true},
+			{Test: "TestC04_Snapshot", Quick: 24000, Thorough: 250000, Rapid: true},
 			{Test: "TestC04_SharedDocRace", Quick: 150, Thorough: 3000, Rapid: true, Race: true, Flaky: true, Shards: 8},
 		},
 		Assumptions: assume("writes outside the value graph reachable from the source value are not observable", "the race detector reports only conflicting accesses that occur in the run"),
@@ -122,7 +122,7 @@ var properties = map[string]*propSpec{
 	"C05": {
 		Title: "A parsed function is pure: each call depends only on its argument",
 		Checks: []checkSpec{
-			{Test: "TestC05_History", Quick: 8000, Thorough: 150000, Rapid: true},
+			{Test: "TestC05_History", Quick: 8000, Thorough: 80000, Rapid: true},
 		},
 		Assumptions: assume(specAssumption, "histories are single-goroutine (concurrency is C06) and bounded at 8 / 16 operations"),
 		Floors: []floor{
@@ -142,7 +142,7 @@ var properties = map[string]*propSpec{
 	"C07": {
 		Title: "Result order is deterministic: sorted keys, index order, written order",
 		Checks: []checkSpec{
-			{Test: "TestC07_Order", Quick: 4000, Thorough: 80000, Rapid: true, Flaky: true},
+			{Test: "TestC07_Order", Quick: 4000, Thorough: 50000, Rapid: true, Flaky: true},
 		},
 		Assumptions: assume(specAssumption, "detecting an unsorted traversal relies on Go's per-range map randomisation (the chance that 30 repetitions over >=3 keys all coincide with sorted order is < 1e-20); Go's map iteration seed is not a function of VERIF_SEED"),
 		Floors: []floor{
@@ -152,7 +152,7 @@ var properties = map[string]*propSpec{
 	"C08": {
 		Title: "Steps compose: P followed by Q equals Q applied to each result of P",
 		Checks: []checkSpec{
-			{Test: "TestC08_Compose", Quick: 12000, Thorough: 300000, Rapid: true},
+			{Test: "TestC08_Compose", Quick: 12000, Thorough: 180000, Rapid: true},
 		},
 		Assumptions: assume("relational oracle: three retrievals of the library are compared with each other; a defect hitting all three equally is C01's business"),
 		Floors: []floor{
@@ -162,7 +162,7 @@ var properties = map[string]*propSpec{
 	"C09": {
 		Title: "Filter logic is Boolean algebra over members; comparisons obey their dualities",
 		Checks: []checkSpec{
-			{Test: "TestC09_Algebra", Quick: 15000, Thorough: 250000, Rapid: true},
+			{Test: "TestC09_Algebra", Quick: 15000, Thorough: 150000, Rapid: true},
 			{Test: "TestC09_SharedFilter", Quick: 150, Thorough: 3000, Rapid: true, Race: true, Flaky: true, Shards: 6},
 		},
 		Assumptions: assume("relational oracle over the library's own atoms (what an atom selects is C10/C01's business); member identity is recovered from pairwise-distinct member values"),
@@ -194,7 +194,7 @@ var properties = map[string]*propSpec{
 	"C12": {
 		Title: "Accessor mode changes only the wrapping of results, never what is selected",
 		Checks: []checkSpec{
-			{Test: "TestC12_Parity", Quick: 30000, Thorough: 500000, Rapid: true},
+			{Test: "TestC12_Parity", Quick: 30000, Thorough: 300000, Rapid: true},
 		},
 		Assumptions: assume("relational oracle: the two modes are compared with each other (what is selected is C01's business)"),
 		Floors: []floor{
@@ -205,7 +205,7 @@ var properties = map[string]*propSpec{
 	"C13": {
 		Title: "Accessor.Set writes exactly the selected location; Get is live",
 		Checks: []checkSpec{
-			{Test: "TestC13_Set", Quick: 20000, Thorough: 300000, Rapid: true},
+			{Test: "TestC13_Set", Quick: 20000, Thorough: 200000, Rapid: true},
 			{Test: "TestC13_SharedAccessors", Quick: 120, Thorough: 2500, Rapid: true, Race: true, Flaky: true, Shards: 6},
 		},
 		Assumptions: assume(specAssumption, "accessors whose ancestor location was overwritten are not checked afterwards (README: structure changes are the caller's concern)"),
@@ -216,7 +216,7 @@ var properties = map[string]*propSpec{
 	"C14": {
 		Title: "Functions see every selected value once, in order; aggregates see all of them",
 		Checks: []checkSpec{
-			{Test: "TestC14_Calls", Quick: 40000, Thorough: 600000, Rapid: true},
+			{Test: "TestC14_Calls", Quick: 40000, Thorough: 400000, Rapid: true},
 		},
 		Assumptions: assume(specAssumption, "call counts of functions inside && / || filters are not pinned by the property (short-circuit is allowed) and are not asserted; a '$'-rooted operand function is only required to be called with the right argument (how often is not pinned)"),
 		Floors: []floor{
@@ -226,7 +226,7 @@ var properties = map[string]*propSpec{
 	"C15": {
 		Title: "Runtime errors name a real failing step: the deepest one, and the right kind",
 		Checks: []checkSpec{
-			{Test: "TestC15_Errors", Quick: 40000, Thorough: 600000, Rapid: true},
+			{Test: "TestC15_Errors", Quick: 40000, Thorough: 400000, Rapid: true},
 		},
 		Assumptions: assume(specAssumption, "error text equality is modulo the spelling rules of DESIGN §3.3 (bare names after '..' and without '$', entries of a multi-name selector)"),
 		Floors: []floor{
@@ -237,7 +237,7 @@ var properties = map[string]*propSpec{
 	"C18": {
 		Title: "Equivalent spellings of a path behave identically",
 		Checks: []checkSpec{
-			{Test: "TestC18_Spellings", Quick: 15000, Thorough: 250000, Rapid: true},
+			{Test: "TestC18_Spellings", Quick: 15000, Thorough: 160000, Rapid: true},
 		},
 		Assumptions: assume(pegiAssumption, "relational oracle: spellings are compared with each other; the renderer's set of 'insignificant' variations is the list in the property statement"),
 		Floors: []floor{
@@ -258,7 +258,7 @@ var properties = map[string]*propSpec{
 	"C20": {
 		Title: "Values that are not decoded JSON are treated as opaque leaves, never crash",
 		Checks: []checkSpec{
-			{Test: "TestC20_Opaque", Quick: 30000, Thorough: 500000, Rapid: true},
+			{Test: "TestC20_Opaque", Quick: 30000, Thorough: 300000, Rapid: true},
 		},
 		Assumptions: assume(specAssumption, "cyclic containers are excluded (not in the property's list); reference-like opaque values are compared by identity"),
 		Floors:      opaqueFloors(),
@@ -266,7 +266,7 @@ var properties = map[string]*propSpec{
 	"C16": {
 		Title: "Every object member is addressable; dot and bracket notations are equivalent",
 		Checks: []checkSpec{
-			{Test: "TestC16_Keys", Quick: 6000, Thorough: 100000, Rapid: true},
+			{Test: "TestC16_Keys", Quick: 6000, Thorough: 60000, Rapid: true},
 			{Test: "TestC16_Collide", Quick: 1, Thorough: 1, Shards: 2},
 		},
 		Assumptions: assume("keys are valid UTF-8 Go strings (what encoding/json produces); the oracle is a plain Go map lookup"),
@@ -289,8 +289,8 @@ var properties = map[string]*propSpec{
 	"C01": {
 		Title: "Retrieval returns exactly the nodes the JSONPath selects, in document order",
 		Checks: []checkSpec{
-			{Test: "TestC01_Spec", Quick: 40000, Thorough: 600000, Rapid: true},
-			{Test: "TestC01_Mutated", Quick: 25000, Thorough: 400000, Rapid: true, Shards: 8},
+			{Test: "TestC01_Spec", Quick: 40000, Thorough: 400000, Rapid: true},
+			{Test: "TestC01_Mutated", Quick: 25000, Thorough: 250000, Rapid: true, Shards: 8},
 			{Test: "FuzzSpec", Fuzz: "FuzzSpec", FuzzSeconds: 150, ThoroughOnly: true},
 		},
 		Assumptions: assume(specAssumption),
